@@ -56,6 +56,21 @@ def cartopy_standin():
         return orig(self, geometry, src_crs)
     project_geometry._verif_standin = True
     crs.Projection.project_geometry = project_geometry
+    # the same for the array forms (a rewrite of the distance computation may use them)
+    orig_pts = crs.CRS.transform_points
+    orig_pt = crs.CRS.transform_point
+
+    def _fix(self, src_crs):
+        return (isinstance(src_crs, crs.PlateCarree) and isinstance(self, crs.AzimuthalEquidistant)
+                and not src_crs.proj4_params.get('lon_0'))
+
+    def transform_points(self, src_crs, x, y, z=None, trap=False):
+        return orig_pts(self, src_crs.as_geodetic() if _fix(self, src_crs) else src_crs, x, y, z, trap)
+
+    def transform_point(self, x, y, src_crs, trap=True):
+        return orig_pt(self, x, y, src_crs.as_geodetic() if _fix(self, src_crs) else src_crs, trap)
+    crs.CRS.transform_points = transform_points
+    crs.CRS.transform_point = transform_point
     return True
 
 
@@ -303,6 +318,10 @@ def run(ctx):
             ctx.count(f'path:{kind}')
             ctx.count(f'pieces:{min(len(want), 6)}{"+" if len(want) >= 6 else ""}')
             line = shapely.LineString(pts)
+            if ctx.evaluations % 3 == 1:
+                # a track with a depth / altitude per vertex (LINESTRING Z): the third ordinate plays no part
+                line = shapely.LineString([(x, y, 25.0 * (k + 1)) for k, (x, y) in enumerate(pts)])
+                ctx.count('path:with a third ordinate')
             with warnings.catch_warnings():
                 warnings.simplefilter('ignore')
                 r = attempt(lambda: transect_mod.Transect(ds, line, depth=depth_name))
@@ -343,7 +362,7 @@ def run(ctx):
             model_pieces = []     # (cell, exact position of the first coordinate, of the last coordinate) per piece
             got_cover = {}
             for s in segs:
-                cs = [(float(x), float(y)) for x, y in s.intersection.coords]
+                cs = [(float(c[0]), float(c[1])) for c in s.intersection.coords]
                 li = int(s.linear_index)
                 pos = [exact_position(path, breaks, c) for c in cs]
                 if any(p[0] > 1e-9 for p in pos):
